@@ -479,6 +479,10 @@ def check_allocator(ctx):
 
 
 def check(ctx):
+    from . import c20 as _c20
+    _c20.check_parse_exact(ctx)    # the collector only ever judges names the library itself produces
+    _c20.check_tools(ctx)          # destroy / backup / copy touch a database's files only under its lock, and its LOCK file last
+    c02.check_manifest(ctx)        # files are collected only after the edit that retires them is durable
     check_version_pointer_lifetime(ctx)
     check_open_gc_order(ctx)
     from . import c14
